@@ -195,14 +195,30 @@ let run_cmds id (c : cfg) (v0 : ienv) (cmds : string) =
       (split ',' cmds)
   with Exit -> ())
 
+(* --pretend-valid: parsed by the model; prints the pair table the way the harness prints the C++ map / set (sorted) *)
+let parse_pv id h : ((z list * z list) list * z list list) option =
+  match Hashtbl.find_opt h "pv" with
+  | None -> Some ([], [])
+  | Some e ->
+    (match parse_pretend_valid do_exec (ascii (unhexstr e)) with
+     | PvRefused -> Printf.printf "R %s pvrefused\n" id; None
+     | PvExit1 -> Printf.printf "R %s exit1\n" id; None
+     | PvAbort -> Printf.printf "R %s CRASH\n" id; None
+     | PvOk (m, keys) ->
+       let ms = List.sort compare (List.map (fun (s, k) -> hexitem s ^ ">" ^ hexitem k) m) in
+       let ks = List.sort compare (List.map hexitem keys) in
+       Printf.printf "R %s pv map=%s keys=%s\n" id (String.concat "," ms) (String.concat "," ks);
+       Some (m, keys))
+
 let do_script h =
   let id = get h "id" "" in
   let scr = unhex (get h "scr" "") in
   if not (has_valid_ops scr) then Printf.printf "R %s refused\n" id
   else begin
     let st = List.rev (unhexlist (get h "st" "")) in
+    match parse_pv id h with None -> () | Some (pvm, pvk) ->
     let c = { c_flags = z_of_string (get h "flags" "0"); c_sigver = z_of_int (geti h "sv" 0);
-              c_allow_disabled = (geti h "z" 0 <> 0); c_pv_map = []; c_pv_keys = [];
+              c_allow_disabled = (geti h "z" 0 <> 0); c_pv_map = pvm; c_pv_keys = pvk;
               c_chk = base_checker; c_hash = the_hashes } in
     let ed = match Hashtbl.find_opt h "wl" with
       | None -> init_execdata
@@ -354,6 +370,7 @@ let do_spend h =
        match select_input spend funding txid (z_of_int (geti h "sel" (-1))) with
        | None -> Printf.printf "R %s txinfail\n" id
        | Some (idx, vout) ->
+         match parse_pv id h with None -> () | Some (pvm, pvk) ->
          match configure sha256 ripemd160 spend funding idx vout with
          | CfgRefused -> Printf.printf "R %s refused\n" id
          | CfgCrash -> Printf.printf "R %s CRASH\n" id
@@ -361,7 +378,7 @@ let do_spend h =
            let flags = z_of_string (get h "flags" "0") in
            let cache = setup_txdata sha256 spend funding vout ss.ss_preamble in
            let x = { x_tx = spend; x_nin = idx; x_amount = ss.ss_amount; x_cache = cache } in
-           let c = { c_flags = flags; c_sigver = ss.ss_sigver; c_allow_disabled = (geti h "z" 0 <> 0); c_pv_map = []; c_pv_keys = [];
+           let c = { c_flags = flags; c_sigver = ss.ss_sigver; c_allow_disabled = (geti h "z" 0 <> 0); c_pv_map = pvm; c_pv_keys = pvk;
                      c_chk = tx_checker sha256 oracle_ecdsa oracle_schnorr x; c_hash = the_hashes } in
            let v = setup_env c ss.ss_script ss.ss_stack ss.ss_successor ss.ss_ed ss.ss_tce in
            if not v.i_operational then Printf.printf "R %s setupfail err=%s\n" id (string_of_z v.i_e.e_err)
